@@ -122,7 +122,8 @@ def generated_case(rng, profile=None):
             if not cands:
                 continue
             case.defs.append({"name": nm, "file": f.path, "a": lay[k][0], "b": lay[k][1], "cands": cands, "idx": k,
-                              "extern": bool(getattr(s.info.get("const"), "extern", False))})
+                              "extern": bool(getattr(s.info.get("const"), "extern", False)),
+                              "deps": sorted(x.lower() for x in getattr(s.info.get("const"), "deps", ()) or ())})
     return case
 
 
@@ -236,29 +237,41 @@ def make_schedules(rng, case, n):
                         if later:
                             aimed.append((k, later, kind in SIZE_KINDS or "%" in stmts[j][3]))
     externs = [k for k, d in enumerate(defs) if d.get("extern")]
+    # root constants (defined by literals) ranked by how many other definitions depend on them: delivering
+    # a root late leaves all its dependents defined-but-pending at the same time
+    dependents = {}
+    for d in defs:
+        for x in d.get("deps", ()):
+            dependents[x] = dependents.get(x, 0) + 1
+    roots = sorted((k for k, d in enumerate(defs) if not d.get("deps") and dependents.get(d["name"], 0) >= 2),
+                   key=lambda k: (-dependents[defs[k]["name"]], k))
     for _ in range(n):
         style = rng.random()
         sched = {}
-        if externs and style < 0.12:
+        if roots and style < 0.18:
+            pick = roots[:1] if rng.random() < 0.5 else roots[:rng.randint(1, min(len(roots), 8))]
+            for k in pick:
+                sched[k] = defs[k]["cands"][-1]
+        elif externs and style < 0.28:
             # an exported constant (visible to other linked files) moved towards the end of its file
             k = rng.choice(externs)
             sched[k] = defs[k]["cands"][-1] if rng.random() < 0.6 else rng.choice(defs[k]["cands"])
-        elif style < 0.25:
+        elif style < 0.38:
             k = rng.randrange(len(defs))
             sched[k] = rng.choice(defs[k]["cands"])
-        elif style < 0.40:
+        elif style < 0.48:
             for k, d in enumerate(defs):
                 if len(sched) >= 12:
                     break
                 sched[k] = d["cands"][-1] if rng.random() < 0.7 else rng.choice(d["cands"])
-        elif style < 0.70 and aimed:
+        elif style < 0.74 and aimed:
             pool = [x for x in aimed if x[2]] or aimed
             if rng.random() < 0.3:
                 pool = aimed
             for _ in range(rng.randint(1, 3)):
                 k, later, _sz = rng.choice(pool)
                 sched[k] = later[0] if rng.random() < 0.6 else rng.choice(later)
-        elif style < 0.8:
+        elif style < 0.82:
             # alternate links of a chain / every other definition
             start = rng.randint(0, 1)
             for k in range(start, len(defs), 2):
